@@ -1,4 +1,5 @@
 import libcst as cst
+from libcst.metadata import CodeRange, PositionProvider
 
 from codemodder.codemods.base_codemod import (
     Metadata,
@@ -11,12 +12,30 @@ from codemodder.codemods.libcst_transformer import (
     LibcstTransformerPipeline,
 )
 from codemodder.codemods.semgrep import SemgrepSarifFileDetector
-from codemodder.codemods.utils_mixin import NameResolutionMixin
+from codemodder.codemods.utils_mixin import AncestorPatternsMixin, NameResolutionMixin
 from core_codemods.semgrep.api import SemgrepCodemod, semgrep_url_from_id
 
 
-class RemoveCsrfExemptTransformer(LibcstResultTransformer, NameResolutionMixin):
+class RemoveCsrfExemptTransformer(
+    LibcstResultTransformer, NameResolutionMixin, AncestorPatternsMixin
+):
     change_description = "Remove `@csrf_exempt` decorator from Django view"
+
+    def _decorated_is_reported(self, decorator: cst.Decorator) -> bool:
+        """The rule reports the whole decorated definition, decorators included"""
+        if self.results is None:
+            return True
+        decorated = self.get_parent(decorator)
+        if not isinstance(decorated, (cst.FunctionDef, cst.ClassDef)):
+            return False
+        # the position of a definition starts at `def`: take in the decorators
+        position = CodeRange(
+            start=self.get_metadata(PositionProvider, decorated.decorators[0]).start,
+            end=self.get_metadata(PositionProvider, decorated).end,
+        )
+        return any(
+            result.match_location(position, decorated) for result in self.results
+        )
 
     def leave_Decorator(
         self, original_node: cst.Decorator, updated_node: cst.Decorator
@@ -24,6 +43,9 @@ class RemoveCsrfExemptTransformer(LibcstResultTransformer, NameResolutionMixin):
         if not self.filter_by_path_includes_or_excludes(
             self.node_position(original_node)
         ):
+            return updated_node
+
+        if not self._decorated_is_reported(original_node):
             return updated_node
 
         if (
